@@ -16,12 +16,12 @@ NOTE_M = ('Trusted: Lean kernel (axioms propext, Classical.choice, Quot.sound on
 
 CLAIMS = {
  'C01': (M, 'proof',
-  'Theorems: Reed-Solomon decoding from any k distinct symbols returns exactly the encoded source symbols (both fields, all 1<=k<=n<=2^m-1). LDPC-Staircase / 2D, value level, whole sessions: the invariant "every stored symbol value is the transmitted one, and the partial sum of every equation is the sum of the transmitted values of its remaining entries" holds after configuration (C01_ldpc_configured, including the even-N1 decoder that pretends to have received the zero last repair symbol), is preserved by every submission through the recursive iterative decoder (C01_it_sound), by the simplification of the linear system (C01_simplify_sound), the Gaussian elimination (C01_ml_sound) and the write-back, for any sequence of submissions (any order, duplicates, either API) and of_finish_decoding calls, before and after the matrix has been consumed by an elimination (C01_ldpc_session_sound); with the encoder model: C01_ldpc_roundtrip (whatever is submitted, every source symbol the session holds is the one that was encoded). Hypotheses: symbol addition is XOR-like and the transmitted block satisfies the parity-check equations. The models are run against the real library on every receive set for small n, both APIs, with callbacks, sampled large blocks, and histories that continue after of_finish_decoding; the direct oracle compares every non-NULL entry of of_get_source_symbols_tab with the encoded symbol byte for byte.',
+  'Theorems: Reed-Solomon decoding from any k distinct symbols returns exactly the encoded source symbols (both fields, all 1<=k<=n<=2^m-1), also stated for the decoder function the executable model actually runs (RS.interpolate over the table operations: C01_rs_interpolate_sound_gf8/gf4). LDPC-Staircase / 2D, value level, whole sessions: the invariant "every stored symbol value is the transmitted one, and the partial sum of every equation is the sum of the transmitted values of its remaining entries" holds after configuration (C01_ldpc_configured, including the even-N1 decoder that pretends to have received the zero last repair symbol), is preserved by every submission through the recursive iterative decoder (C01_it_sound), by the simplification of the linear system (C01_simplify_sound), the Gaussian elimination (C01_ml_sound) and the write-back, for any sequence of submissions (any order, duplicates, either API) and of_finish_decoding calls, before and after the matrix has been consumed by an elimination (C01_ldpc_session_sound); with the encoder model: C01_ldpc_roundtrip (whatever is submitted, every source symbol the session holds is the one that was encoded). Hypotheses: symbol addition is XOR-like and the transmitted block satisfies the parity-check equations. The models are run against the real library on every receive set for small n, both APIs, with callbacks, sampled large blocks, and histories that continue after of_finish_decoding; the direct oracle compares every non-NULL entry of of_get_source_symbols_tab with the encoded symbol byte for byte.',
   'Lean 4 invariant proof over hand model (IT + ML, whole sessions) + differential correspondence + byte-exact oracle', 'DESIGN.md section 0.2 and section 4, C01'),
  'C02': (M, 'proof',
   'Theorems (Mathlib Lagrange interpolation over Field instances built from the bit-level multiplication): the model generator is the '
   'systematic Vandermonde/Lagrange generator on points 0,1,x,x^2,..., any k distinct encoding symbols determine every source symbol, fewer '
-  'than k never do, the session model reports FAILURE with fewer than k. Tie: generator matrices of the C codecs dumped for every k and '
+  'than k never do, the session model reports FAILURE with fewer than k; C02_executable_field_ops: the table-accelerated field operations the executable model runs are faithful copies of GF(2^8)/GF(2^4). Tie: generator matrices of the C codecs dumped for every k and '
   'compared with the model; decoder correspondence on all k-subsets for small n and sampled up to n=255/15.',
   'Lean 4 theorems (Lagrange/MDS) + exhaustive generator correspondence', 'DESIGN.md section 4, C02'),
  'C03': (M, 'proof',
@@ -40,7 +40,7 @@ CLAIMS = {
  'C06': (M, 'proof',
   'Theorems: RS repair symbols are rows of the systematic Lagrange generator (both fields), codec 1 and codec 2/m=8 use the same field and '
   'points, LDPC repair symbols satisfy every parity equation and are uniquely determined, source slots are never modified and a NULL '
-  'slot is allocated (model). Tie: unit payloads make the harness output the generator row/equation itself; every repair ESI, all k for '
+  'slot is allocated (model); C06_rs_encode_function: the encoder function the executable model runs (RS.encode with the table operations) equals the generator-matrix product for every k and repair index. Tie: unit payloads make the harness output the generator row/equation itself; every repair ESI, all k for '
   'GF(2^4), seeded k for GF(2^8), LDPC grid.',
   'Lean 4 theorems + generator/equation correspondence on unit payloads', 'DESIGN.md section 4, C06'),
  'C09': (M, 'proof',
@@ -84,10 +84,10 @@ CLAIMS = {
   'of_compute_blocking_struct and double_to_closest_int are translated to Lean on every run; C20_full: for every 1 <= L < 2^32, E >= 1, B >= 1 and ANY rounding operator satisfying the binary64 standard model, the four outputs are N = ceil(T/B), A_large = ceil(T/N), A_small = floor(T/N), I = T mod N with T = ceil(L/E), hence A_large <= B and I*A_large + (N-I)*A_small = T (every ceil/floor is exact because quotients of 32-bit integers are at distance >= 1/divisor from the next integer; the product A_fraction*N is within 2^-18 of T mod N and the closest-integer routine returns it). Tie: exhaustive small T,B block and sampled 32-bit triples of the compiled C against the translated model with exact-rational rounding and an integer oracle.',
   'Lean 4 theorems over per-run translation + differential run', 'DESIGN.md section 4, C20'),
  'C17': (M, 'proof',
-  'Theorems over a model that keeps what the C structure keeps (traversal order of every row and every column, entry pool counters): the invariant (sorted rows and columns, row/column consistency, bounds, free + used = 1024 x blocks) is preserved by EVERY operation sequence (C17_run_inv); find (last-of-row, last-of-column, parallel scan) <=> membership; idempotent insert; delete; clear; copy, copyrows, copycols, copy_filled_matrix specifications. Tie: generated operation sequences on real matrices (all traversals forwards and backwards, find on every cell, pool counters after each mutation; every sequence up to length 4/5 over a 12-operation alphabet; random long ones with recycled entries and several pool blocks; sparse<->dense conversions on widths spanning several words) under ASan/LSan, compared with the model and with a Python set oracle.',
+  'Theorems over a model that keeps what the C structure keeps (traversal order of every row and every column, entry pool counters): the invariant (sorted rows and columns, row/column consistency, bounds, free + used = 1024 x blocks) is preserved by EVERY operation sequence (C17_run_inv); find (last-of-row, last-of-column, parallel scan) <=> membership; idempotent insert; delete; clear; copy, copyrows, copycols, copy_filled_matrix specifications; conversion from dense yields an invariant-satisfying matrix with exactly the one bits, conversion to dense reads exactly the entry set. Tie: generated operation sequences on real matrices (all traversals forwards and backwards, find on every cell, pool counters after each mutation; every sequence up to length 4/5 over a 12-operation alphabet; random long ones with recycled entries and several pool blocks; sparse<->dense conversions on widths spanning several words) under ASan/LSan, compared with the model and with a Python set oracle.',
   'Lean 4 refinement proof (list model -> set) + operation-sequence correspondence', 'DESIGN.md section 4, C17'),
  'C18': (M, 'proof',
-  'Theorems: the packed-word operations (get, set, flip, clear, xor_rows, copy, copyrows) equal the bit-matrix operation for every dimension and preserve the representation invariant; all popcount helpers, translated from the C source each run, equal the bit count for EVERY word: of_hweight32_naive, the SWAR routines of_hweight32 (all w < 2^32) and of_popcount_3 (all x < 2^64; byte-lane decomposition, per-lane facts by kernel evaluation over one byte, final multiplication/folding by linear arithmetic), the byte table of_hw8table and the four-lookup sum of of_hweight32_table; the bit macros of of_matrix_dense.h (getbit, setbit1, setbit0, word/bit index, words per row), translated each run through wrapper functions, are the primitives of the dense model (C18_macro_*); the solver theorems of C03 (unique solution iff full column rank, failure otherwise). copycols and the row/column weight loops are tied by correspondence. Tie: every exported dense operation on dimensions across word boundaries vs the model and a Python bit-matrix oracle; solver on all 0/1 systems with p,q<=3 with every NULL pattern of the right-hand sides and random systems up to 40x40.',
+  'Theorems: the packed-word operations (get, set, flip, clear, xor_rows, copy, copyrows, copycols, row/column weights, conversion from and to the sparse representation and their round trip) equal the bit-matrix operation for every dimension and preserve the representation invariant; all popcount helpers, translated from the C source each run, equal the bit count for EVERY word: of_hweight32_naive, the SWAR routines of_hweight32 (all w < 2^32) and of_popcount_3 (all x < 2^64; byte-lane decomposition, per-lane facts by kernel evaluation over one byte, final multiplication/folding by linear arithmetic), the byte table of_hw8table and the four-lookup sum of of_hweight32_table; the bit macros of of_matrix_dense.h (getbit, setbit1, setbit0, word/bit index, words per row), translated each run through wrapper functions, are the primitives of the dense model (C18_macro_*); the solver theorems of C03 (unique solution iff full column rank, failure otherwise). copycols and the row/column weight loops are tied by correspondence. Tie: every exported dense operation on dimensions across word boundaries vs the model and a Python bit-matrix oracle; solver on all 0/1 systems with p,q<=3 with every NULL pattern of the right-hand sides and random systems up to 40x40.',
   'Lean 4 theorems (bit-matrix, solver) + exhaustive small-system correspondence', 'DESIGN.md section 4, C18'),
  'C08': (M, 'proof',
   'Partial by nature: theorem over the allocation-ledger model (what the application owns after release is exactly the library-allocated '
